@@ -78,6 +78,35 @@ def check_shape(shape):
         if cons != has_c3:
             raise Violation('is_consistent=%s but C3 exists=%s: %s' % (cons, has_c3, ctxt),
                             signature='C03:is_consistent')
+        # (iii) the documented global setting ZOPE_INTERFACE_STRICT_IRO (C3.STRICT_IRO) only changes the default: an explicit
+        # strict=False still computes, is_consistent still answers, the default raises exactly when no C3 order exists
+        plain = ro.ro(I, strict=False)
+        saved = ro.C3.__dict__['STRICT_IRO']
+        ro.C3.STRICT_IRO = True
+        try:
+            try:
+                under = ro.ro(I, strict=False)
+            except ro.InconsistentResolutionOrderError:
+                raise Violation('with the strict setting on, ro(strict=False) raised instead of computing: ' + ctxt, signature='C03:strict-setting')
+            if under != plain:
+                raise Violation('with the strict setting on, ro(strict=False) gives another order: ' + ctxt, signature='C03:strict-setting')
+            try:
+                cons2 = ro.is_consistent(I)
+            except ro.InconsistentResolutionOrderError:
+                raise Violation('with the strict setting on, is_consistent raised instead of answering: ' + ctxt, signature='C03:strict-setting')
+            if cons2 != has_c3:
+                raise Violation('with the strict setting on, is_consistent=%s but C3 exists=%s: %s' % (cons2, has_c3, ctxt),
+                                signature='C03:is_consistent')
+            try:
+                dflt = ro.ro(I)
+                raised2 = False
+            except ro.InconsistentResolutionOrderError:
+                raised2 = True
+            if raised2 == has_c3 or (not raised2 and dflt != sro):
+                raise Violation('with the strict setting on, ro() raised=%s but C3 exists=%s: %s' % (raised2, has_c3, ctxt),
+                                signature='C03:strict-raise')
+        finally:
+            type.__setattr__(ro.C3, 'STRICT_IRO', saved)
         leg = ro.ro(I, use_legacy_ro=True, log_changed_ro=False)
         exp_leg = [ifaces[j] for j in _legacy(shape, i)]
         leg_wo = [x for x in leg if x is not Interface]
@@ -121,7 +150,7 @@ HARNESSES = [
             encoded=_ENC,
             bounds='every ordered DAG with distinct bases on N=5 nodes (10 400 shapes; all sub-DAGs N<=4 are prefixes) quick; '
                    'N=6 with <=3 bases per node thorough (non-exhaustive if the budget ends first); every node of every shape checked',
-            outside='duplicate bases in one __bases__ tuple (rejected by Python); N>6; logging/tracking side channels; '
+            outside='duplicate bases in one __bases__ tuple (rejected by Python); N>6; logging/tracking side channels (the strict setting is covered: on and off); '
                     'rebasing histories are covered by C02 (sro of the rebased graph == fresh graph)',
             oracle="structural predicates + CPython's type.mro() on a mirrored class hierarchy (TypeError <=> no C3) + "
                    'an independent DFS-keep-last statement of the legacy order'),
